@@ -7,6 +7,7 @@ import (
 	"go/ast"
 	"go/parser"
 	"go/token"
+	"math/big"
 	"os"
 	"os/exec"
 	"path/filepath"
@@ -145,6 +146,23 @@ func c19Static() []*common.Fail {
 		var main, sub int
 		if _, err := fmt.Sscanf(n, "%d.%d", &main, &sub); err != nil {
 			continue
+		}
+		// the main number beyond the width a parsed key would have: main + k * 2^8 / 2^16 / 2^32 / 2^64 with the same sub
+		subText := n[strings.Index(n, ".")+1:]
+		for _, sh := range []uint{8, 16, 31, 32, 63, 64} {
+			for k := int64(1); k <= 2; k++ {
+				wide := new(big.Int).Lsh(big.NewInt(k), sh)
+				wide.Add(wide, big.NewInt(int64(main)))
+				alias := wide.String() + "." + subText
+				nAlias++
+				if seen[alias] {
+					continue
+				}
+				if f := c19Lookup(alias); f != nil && len(fails) < 20 {
+					f.Detail += fmt.Sprintf(" [the registered name %q with %d * 2^%d added to its main number]", n, k, sh)
+					fails = append(fails, f)
+				}
+			}
 		}
 		for _, m := range []int{100, 256, 1000, 4096, 10000, 65536, 100000} {
 			for k := 1; k <= 6 && main-k >= 0; k++ {
